@@ -93,6 +93,37 @@ def _startup(ctx, master, rule='C09.1'):
                    [K.show_table(t) for t in tabs] if tabs else
                    'not a recognised set expression'),
                construct='start-up delete domain')
+    # where the "model" side of the difference is taken to be empty, the
+    # server is not a member of the cell (for a member an empty stand-in
+    # deletes every record it has, and the create pass, which trusts the
+    # listing taken before, does not write them again)
+    members = _is_members(func)
+    nzf = N.Normaliser()
+    facts = None
+    for node, rec in dels:
+        loop = K.enclosing_for(graph, node, rec[1])
+        if loop is None:
+            continue
+        for name in sorted(N.mentions(loop.ast.iter)):
+            vals = K.def_sites(graph, sx.rdefs, loop, name)
+            if len(vals) < 2:
+                continue
+            for site, val in vals:
+                empty = isinstance(val, ast.Call) and K.callee_text(val) in (
+                    'set', 'frozenset') and not val.args
+                if not empty:
+                    continue
+                if facts is None:
+                    facts = N.must_facts(graph, nzf)
+                have = N.raw_only(facts[site])
+                ok = any(f.key[0] == 'in' and not f.key[3] and
+                         _names_members(func, f.key[2], members)
+                         for f in have)
+                ctx.ob(rule, func, site, ok,
+                       'an empty model side is used only for a server that '
+                       'is not a member of the cell (facts: %s)'
+                       % sorted(N.show(f) for f in have),
+                       construct='empty model side only for non-members')
     for node, rec in puts:
         loop = K.enclosing_for(graph, node, rec[1])
         ctx.require(loop is not None, 'loop of the start-up create', rule=rule)
@@ -171,6 +202,13 @@ def _is_members(func):
             return True
         return False
     return recog
+
+
+def _names_members(func, text, members):
+    try:
+        return members(ast.parse(text, mode='eval').body)
+    except SyntaxError:
+        return False
 
 
 def _cycle_result(func):
